@@ -159,3 +159,15 @@ CHECKS["C16"]["note"] += " The three-formatter differential includes concrete st
 CHECKS["C17"]["note"] += " Values include a tuple holding a list."
 CHECKS["C18"]["note"] += " Templates include non-ASCII text left of the edited expressions."
 CHECKS["C19"]["note"] += " Templates include a two-file project and HasRepr values inserted into existing lists / dicts / sub-snapshots."
+# fourth batch of seeds / findings (see DESIGN.md 5 and 6.2)
+CHECKS["C01"]["note"] += " Also: values of one type whose repr is Python code for some values only (symbolic per value); Flag values without any set flag (defect repaired in c2cec81)."
+CHECKS["C03"]["note"] += " Layouts include parenthesized elements, a file with a byte order mark and a snapshot on its first line (real write); files that already import HasRepr in five positions (no further import may be added). Defects repaired: 7d7f9a9, b7692e2. The kernel's abstract tokens carry an abstract text whose last-line length equals the end column (environment contract after 1d54ab9)."
+CHECKS["C07"]["note"] += " Subjects include an == snapshot holding inner snapshot() calls (alignment probes must not count as wrong values; defect repaired in 9d8c53e)."
+CHECKS["C08"]["note"] += " Templates include 1-tuples written in place of values of another type and an in-snapshot of a HasRepr value whose class answers False for other types (defect repaired in 489355f)."
+CHECKS["C10"]["note"] += " Also: observed dicts that enumerate the shared keys in another order; snapshots that no test compares (star-expressions, f-strings, Is() keep their text under every approved set; defect repaired in 87eb161)."
+CHECKS["C12"]["note"] += " File-rewrite family (engine A): 17 source lines with non-ASCII / astral / multi-line literals at or before the edited node, int leaves and the choice of the written string symbolic, every subset of create/fix/trim/update; two defects found there were repaired (f92859b, 1d54ab9)."
+CHECKS["C15"]["note"] += " Two more kinds: exit status 0 with output in another encoding, exit status 0 with empty output (defect repaired in dfb07fc); the test files hold non-ASCII strings outside the snapshot arguments."
+CHECKS["C16"]["note"] += " History family: two values (equal but differently typed ones included) generated one after the other in one session read back with their own types. Every modelled session starts with the module-level containers of a fresh process."
+CHECKS["C17"]["note"] += " Uncopyable values are also judged in sequences (a well-behaved value of the same outer type first; two odd values; bare/list/dict/tuple; ==, in, [])."
+CHECKS["C18"]["note"] += " Templates include replaced / neighbouring multi-line literals with non-ASCII characters and parenthesized elements."
+CHECKS["C20"]["note"] += " One path rewritten twice in one interpreter with different contents (symbolic); because CrossHair bypasses functools.lru_cache, the same case is also run concretely on all idempotent formatters of a 3-text domain (contract-validation item, no solver)."
